@@ -63,6 +63,9 @@ def main():
     jobs = []
     for d in dirs:
         meta = json.load(open(d + '/meta.json'))
+        if meta.get('retired'):
+            print('%-48s retired (see meta.json)' % os.path.basename(d))
+            continue
         if a.checks == 'target':
             cs = [meta['breaks_property']]
         elif a.checks == 'all':
